@@ -139,6 +139,8 @@ func registriesFor(name, version string) []string {
 	return nil
 }
 
+var absentDeps atomic.Int64
+
 func pbDeps(d Deps) *pb.Requirements_NPM_Dependencies {
 	cv := func(xs []Dep) (out []*pb.Requirements_NPM_Dependencies_Dependency) {
 		for _, x := range xs {
@@ -149,6 +151,12 @@ func pbDeps(d Deps) *pb.Requirements_NPM_Dependencies {
 			out = append(out, &pb.Requirements_NPM_Dependencies_Dependency{Name: x.Name, Requirement: req})
 		}
 		return
+	}
+	if len(d.Reg)+len(d.Dev)+len(d.Opt)+len(d.Peer)+len(d.Bundle) == 0 {
+		// Nothing declared: the message is absent (not an empty one), as a
+		// proto3 producer naturally leaves it.
+		absentDeps.Add(1)
+		return nil
 	}
 	return &pb.Requirements_NPM_Dependencies{
 		Dependencies:         cv(d.Reg),
